@@ -9,9 +9,53 @@ Stages (per format: OFF, ASCII STL, binary STL, ASCII PLY, binary PLY, segment C
       guard and an allocation meter; a process death is attributed to the case that caused it.
   V   TLC (CodecJudge) judges each recorded outcome: returned data or an error (no panic, no
       crash), terminated with at most one row per input byte, allocated <= 4 MiB + 1 KiB/byte.
+  csv-fields  the segment CSV format once more at the level of fields (see csv_fields_stage).
 """
+import json
+
 import codec
+import vlib
 from vlib import Infra
+
+JUDGE_CFG = "SPECIFICATION Spec\nCHECK_DEADLOCK FALSE\n"
+
+
+def csv_fields_stage(ctx):
+    """Segment CSV at the level of fields: TLC enumerates files of <= 2 (thorough 3) rows in which every row carries its
+    own row fault (3 / 5 / 0 fields on any row incl. the first, trailing comma, blank line, quoted fields, lone quote,
+    empty / non-numeric field) together with what the format prescribes (error / these segments / either); the
+    harness runs DecodeCSV and SegmentCSVReader; CsvFieldJudge compares."""
+    cpath, n = codec.gen_cases(ctx, "csvf", False)
+    rpath, stats = codec.run_faults(ctx, "csvf", cpath, n, "csvf")
+    j = ctx.tlc("J-csvf", "codec/CsvFieldJudge", JUDGE_CFG, data={"records.ndjson": rpath}, workers=16, timeout=1800,
+                heap="10g")
+    ctx.require_clean(j, "J-csvf")
+    ctx.add_tlc_counts(j)
+    if j.distinct != 2 * stats["records"]:
+        raise Infra("judge csvf examined %d states for %d records" % (j.distinct, stats["records"]))
+    rejects = [x for x in j.tagged("REJECT") if x[3] in {"panic", "hang", "alloc", "expect"}]
+    recs = {r["id"]: r for r in vlib.read_ndjson(rpath)}
+    expects = {}
+    for r in recs.values():
+        expects[r.get("expect", "")] = expects.get(r.get("expect", ""), 0) + 1
+    if not all(expects.get(k) for k in ("ok", "err", "any")) or stats.get("outcome:err", 0) == 0 or stats.get("outcome:ok", 0) == 0:
+        raise Infra("csv field stage is vacuous: %s %s" % (expects, stats))
+    for (_, rid, _l, clause) in rejects:
+        rec = recs[rid]
+        first_bad = next((x for x in rec["s"].split("/") if x not in ("ok", "quoted") and not x.startswith("q1")), "none")
+        what = {"expect": {"err": "malformed-file-accepted", "ok": "valid-file-rejected-or-changed",
+                           "any": "wrong-segments"}.get(rec.get("expect"), "expect")}.get(clause, clause)
+        ctx.violation("%s:csv-fields:%s:%s" % (rec["site"], what, first_bad),
+                      "%s record #%d rows=%s expect=%s: clause %s: %s" % (
+                          rec["site"], rid, rec["s"], rec.get("expect"), clause,
+                          json.dumps({k: rec[k] for k in rec if k not in ("hex",)})[:400] + " " + rec.get("hex", "")[:200]),
+                      {"spec": "codec/CsvFieldJudge.tla", "clause": clause, "record": rec})
+    ctx.counts["traces_validated_against_impl"] += stats["records"]
+    ctx.counts["evaluations"] += stats["records"]
+    ctx.stage("csv-fields", kind="G+R+V", cases=n, records=stats["records"], rejected=len(rejects), expected=expects,
+              outcomes={k[8:]: v for k, v in stats.items() if k.startswith("outcome:")},
+              decoders={k[5:]: v for k, v in stats.items() if k.startswith("site:")})
+    return stats["records"], stats["records"] - expects.get("ok", 0)
 
 
 def run(ctx):
@@ -35,6 +79,9 @@ def run(ctx):
                   decoders={k[5:]: v for k, v in stats.items() if k.startswith("site:")}, crashes=stats.get("crash", 0))
         if stats.get("outcome:err", 0) == 0 or stats.get("outcome:ok", 0) == 0:
             raise Infra("fault stage %s is vacuous: %s" % (fmt, stats))
+    n_rec, n_malformed = csv_fields_stage(ctx)
+    total += n_rec
+    nontrivial += n_malformed
     ctx.counts["distinct_nontrivial"] = nontrivial
     ctx.extra["exhaustive"] = True
     ctx.samples.append({"format": "off", "fault": "repl(k=2,j=1,s=-1): vertex count replaced by -1"})
